@@ -150,7 +150,10 @@ fn run_lru(cap: usize, hist: &[LOp]) -> Outcome<LOp> {
     }
     let now = Instant::now();
     // age classes: what an Idle(4|7) can still distinguish
-    let fp = mc::fp_of(&(cap, r.list.iter().map(|e| (e.0, now.saturating_duration_since(e.2).as_secs().min(11))).collect::<Vec<_>>(), cache.len()));
+    // the implementation's own order and ages belong to the state as well: with the reference
+    // alone, a state in which the cache failed to refresh an entry would be merged with a correct one
+    let impl_view: Vec<(u8, u64)> = cache.verif_iter().map(|(k, _, t)| (*k, now.saturating_duration_since(t).as_secs().min(11))).collect();
+    let fp = mc::fp_of(&(cap, r.list.iter().map(|e| (e.0, now.saturating_duration_since(e.2).as_secs().min(11))).collect::<Vec<_>>(), cache.len(), impl_view));
     let mut enabled = vec![];
     if violation.is_none() {
         for k in 1..=3u8 {
